@@ -29,7 +29,7 @@ BOUNDS = {
               'sub_list_layouts': '_size_factor=1 splits, or 2 symbolic cut points over the flat content'},
     'thorough': {'pre_state_adds': '0..5', 'operations_after_pre_state': 3},
 }
-ASSUMPTIONS = ['priorities are ints (|p| <= 1000) or None: exactly representable as floats', 'tasks interact only through ==/hash',
+ASSUMPTIONS = ['priorities are ints (|p| <= 1000) or None: exactly representable as floats', 'tasks interact only through ==/hash', 'pop/peek defaults: a foreign object, or the very task at the head of the queue (odd queue sizes)',
                'default priority_key']
 OUT_OF_CLAIM = ['NaN / float priorities', 'custom priority_key', 'more entries than the bound symbolically',
                 'production _size_factor sub-list layouts beyond those reached with _size_factor=1 / explicit cuts '
@@ -83,6 +83,8 @@ def step(qs, M, name, t, p):
         M.remove(t)
     elif name in ('pop', 'pop_default', 'peek', 'peek_default'):
         b = M.best()
+        # the caller's default may be the very object that is at the head of the queue (odd sizes), or a foreign one
+        dflt = b[2] if (b is not None and len(M.live) % 2 == 1) else 'dflt'
         for q in qs:
             try:
                 if name == 'pop':
@@ -90,9 +92,9 @@ def step(qs, M, name, t, p):
                 elif name == 'peek':
                     r = q.peek()
                 elif name == 'pop_default':
-                    r = q.pop(default='dflt')
+                    r = q.pop(default=dflt)
                 else:
-                    r = q.peek(default='dflt')
+                    r = q.peek(default=dflt)
             except IndexError:
                 if b is not None or name.endswith('default'):
                     return name + '_indexerror'
